@@ -77,10 +77,52 @@ pub fn integrity(l: &RunLog) -> Vec<Finding> {
             AppEv::ReadGot { off, n, ok, first_bad } => {
                 read[idx(e.side)] += *n as u64;
                 if !*ok {
+                    // root-cause classification: the writer re-cut a sequence number (an expired MTU probe)
+                    // whose original transmission had in fact been delivered
+                    let writer_is_a = e.side == Side::B;
+                    let mut first_len: std::collections::BTreeMap<u16, (usize, bool)> = Default::default();
+                    let mut recut_of_delivered = false;
+                    for w in l.wire.iter().filter(|w| w.from_a == writer_is_a && w.ptype == 0 && !w.injected && !w.rejected) {
+                        let delivered = l.delivered.iter().any(|d| d.1 == w.k);
+                        match first_len.get(&w.seq) {
+                            None => {
+                                first_len.insert(w.seq, (w.payload.len(), delivered));
+                            }
+                            Some((len0, del0)) => {
+                                if *len0 != w.payload.len() && *del0 {
+                                    recut_of_delivered = true;
+                                }
+                            }
+                        }
+                    }
+                    // ... or the re-cut version never reached the wire: an oversized first transmission was
+                    // delivered, but the first ACK covering it reached the writer a full minimum RTO (200 ms) later
+                    if !recut_of_delivered {
+                        let mut max_len = 0usize;
+                        let mut seen: std::collections::BTreeSet<u16> = Default::default();
+                        for w in l.wire.iter().filter(|w| w.from_a == writer_is_a && w.ptype == 0 && !w.injected && !w.rejected) {
+                            if !seen.insert(w.seq) {
+                                continue;
+                            }
+                            let probe_like = max_len > 0 && w.payload.len() > max_len;
+                            max_len = max_len.max(w.payload.len());
+                            if probe_like && l.delivered.iter().any(|d| d.1 == w.k) {
+                                let t_ack = l
+                                    .wire
+                                    .iter()
+                                    .filter(|a| a.from_a != writer_is_a && !a.injected && a.parse_ok && (a.ack.wrapping_sub(w.seq) as i16) >= 0)
+                                    .filter_map(|a| l.delivered.iter().filter(|d| d.1 == a.k).map(|d| d.0).min())
+                                    .min();
+                                if t_ack.map(|t| t >= w.t_us + 200_000).unwrap_or(true) {
+                                    recut_of_delivered = true;
+                                }
+                            }
+                        }
+                    }
                     v.push(f(
                         "C01",
                         "integrity",
-                        "integrity/wrong-bytes",
+                        if recut_of_delivered { "probe/acked-after-expiry-desynchronises-stream" } else { "integrity/wrong-bytes" },
                         format!(
                             "{} read {} bytes at stream offset {}: first wrong byte at offset {} (t={} us)",
                             side_name(e.side), n, off, first_bad.unwrap_or(0), e.t_us
